@@ -57,7 +57,9 @@ func (mf *memorySegmentFile) close() (err error) {
 }
 
 func (mf *memorySegmentFile) get() (io.Reader, int, error) {
-	data := mf.file.Bytes()
+	// 返回副本：缓冲区在分段被淘汰时会回收到 segmentPool 并被新分段复用，
+	// 读取方此时可能尚未读完
+	data := append([]byte(nil), mf.file.Bytes()...)
 	return bytes.NewReader(data), len(data), nil
 }
 
